@@ -146,14 +146,13 @@ func (s *Service) onFindNode(ctx context.Context, peer p2p.Peer, stream p2p.Stre
 	target := boson.NewAddress(req.Target)
 	skip := []boson.Address{peer.Address}
 
-	var (
-		limitConn  = 1
-		limitKnown = 1
-	)
-	if req.Limit > 2 {
-		limitKnown = int(req.Limit / 2)
-		limitConn = int(req.Limit) - limitKnown
+	if req.Limit < 0 {
+		req.Limit = 0
 	}
+	// split the limit between connected and known peers without exceeding it:
+	// 0 -> 0+0, 1 -> 1+0, 2 -> 1+1, 3 -> 2+1, ...
+	limitKnown := int(req.Limit / 2)
+	limitConn := int(req.Limit) - limitKnown
 
 	addrFunc := func(address boson.Address, u uint8) (stop, jumpToNext bool, err error) {
 		if address.MemberOf(skip) {
